@@ -141,7 +141,11 @@ Definition rnot (r : res) : res := match r with RB b => RB (negb b) | RObj => RB
    Both flags are detected on the real code on every run (and validated by the exhaustive correspondence). *)
 Record specials := { id_L2 : nat; id_H1 : nat; id_H2 : nat; id_H3 : nat; id_HInf : nat;
                      id_HDiv : nat; id_HCurl : nat; unknown_ids : list nat;
-                     dir_all_any : bool; unknown_raises : bool }.
+                     dir_all_any : bool; unknown_raises : bool;
+                     (* [explicit_ops]: >, <=, >= are defined as for a partial order instead of derived by
+                        total_ordering; [contains_le]: directional membership is `space <= self` *)
+                     explicit_ops : bool; contains_le : bool;
+                     item_parents : list (nat * list nat)   (* parents of the spaces L2,H1,H2,H3,HInf by id *) }.
 Section Named.
 Variable S : specials.
 Variable T : ntable.
@@ -153,6 +157,11 @@ Definition dir_item (o : ord) : option nat :=
   | Fin 0 => Some (id_L2 S) | Fin 1 => Some (id_H1 S) | Fin 2 => Some (id_H2 S)
   | Fin 3 => Some (id_H3 S) | Inf => Some (id_HInf S) | _ => None
   end.
+
+Fixpoint ord_min0 (l : list ord) : ord :=
+  match l with [] => Inf | x :: r => let m := ord_min0 r in if ord_leb x m then x else m end.
+Definition named_le_id (a : nspace) (i : nat) : bool :=      (* a <= the named space with id i *)
+  Nat.eqb (ns_id a) i || mem i (ns_parents a).
 
 (* __eq__ *)
 Definition eq_res (x y : sp) : res :=
@@ -177,6 +186,15 @@ Definition lt_method (x y : sp) : res :=
       then RB (forallb (fun o => ord_geb o (Fin 1)) a)
       else if mem (ns_id b) (unknown_ids S)
       then (if unknown_raises S then RErr else RObj)     (* RETURNS a NotImplementedError instance *)
+      else if explicit_ops S
+      then (* repaired: the space of the least smooth direction is contained in b, and self <> b *)
+        match dir_item (ord_min0 a) with
+        | Some i => match eq_res x y with
+                    | RB e => RB ((Nat.eqb i (ns_id b) || match find (fun p => Nat.eqb (fst p) i) (item_parents S) with
+                                                        | Some p => mem (ns_id b) (snd p) | None => false end) && negb e)
+                    | r => r end
+        | None => RErr
+        end
       else RB ((if dir_all_any S then forallb (fun o => ord_geb o (ns_order b)) a else true)
                && existsb (fun o => ord_gtb o (ns_order b)) a)
   end.
@@ -194,9 +212,24 @@ Definition ror (r : res) (e : res) : res :=                (* r or e *)
   | RB true => RB true
   | RB false => e
   end.
-Definition gt_method (x y : sp) : res := rand_not_and (lt_method x y) (ne_res x y).
-Definition le_method (x y : sp) : res := ror (lt_method x y) (eq_res x y).
-Definition ge_method (x y : sp) : res := rnot (lt_method x y).
+(* explicit partial-order operators (repaired code) *)
+Definition gt_explicit (x y : sp) : res :=
+  match x, y with
+  | Named a, Named b => RB (mem (ns_id a) (ns_parents b))
+  | Named _, Dir _ => RErr
+  | Dir a, Dir b => lt_method (Dir b) (Dir a)
+  | Dir a, Named b =>
+      if forallb (fun o => match dir_item o with Some _ => true | None => false end) a
+      then rand_not_and (rnot (RB (forallb (fun o => match dir_item o with Some i => named_le_id b i | None => false end) a)))
+                        (rnot (eq_res x y))
+      else RErr
+  end.
+Definition gt_method (x y : sp) : res :=
+  if explicit_ops S then gt_explicit x y else rand_not_and (lt_method x y) (ne_res x y).
+Definition le_method (x y : sp) : res :=
+  if explicit_ops S then ror (eq_res x y) (lt_method x y) else ror (lt_method x y) (eq_res x y).
+Definition ge_method (x y : sp) : res :=
+  if explicit_ops S then ror (eq_res x y) (gt_method x y) else rnot (lt_method x y).
 
 (* CPython rich comparison: if type(y) is a proper subclass of type(x), y's reflected method first *)
 Definition reflected_first (x y : sp) : bool :=
@@ -279,6 +312,7 @@ Definition involves_unknown (x y : sp) : bool :=
   end.
 (* DirectionalSobolevSpace.__contains__ for an element whose space is the named space e *)
 Definition contains_dir (b : list ord) (e : nspace) : res :=
+  if contains_le S then py_le S (Named e) (Dir b) else
   match eq_res S (Named e) (Dir b) with
   | RB true => RB true
   | RErr => RErr
@@ -299,6 +333,12 @@ Definition pair_ok (x y : sp) : bool :=
 Definition all_ok_outside_known (l : list sp) : bool :=
   forallb (fun x => forallb (fun y =>
      implb (spec_comparable x y && negb (involves_unknown x y)) (pair_ok x y)) l) l.
+(* repaired code: every operator is right on EVERY pair that does not involve an unknown space *)
+Definition all_ok_everywhere (l : list sp) : bool :=
+  forallb (fun x => forallb (fun y => implb (negb (involves_unknown x y)) (pair_ok x y)) l) l.
+Definition membership_dir_all (ds : list (list ord)) (es : list nspace) : bool :=
+  forallb (fun b => forallb (fun e =>
+    implb (negb (mem (ns_id e) (unknown_ids S))) (r_eqb (contains_dir b e) (RB (sub_spec (Named e) (Dir b))))) es) ds.
 End Spec.
 
 Lemma all_ok_outside_known_sound S T l : all_ok_outside_known S T l = true ->
